@@ -19,7 +19,7 @@ META = {
     "deciding": ["binomial_evaluations.binary_joint_log_likelihood_ndarray", "brier_evaluations._brier_score_ndarray",
                  "trace:binary test_distribution[j]~simulated[j]", "trace:brier test_distribution[j]~simulated[j]"],
 }
-META["added"] = 'Added: Fortran / transposed arrays for primitives and tests, injected Brier collisions (two numbers in one bin), forecasts re-scaled before the tests, many low-rate active bins (product underflow), shared object histories from gridcases. array-valued scale factors. below-minimum-magnitude event alone in a cell (S-test).'
+META["added"] = 'Added: Fortran / transposed arrays for primitives and tests, injected Brier collisions (two numbers in one bin), forecasts re-scaled before the tests, many low-rate active bins (product underflow), shared object histories from gridcases. array-valued scale factors. below-minimum-magnitude event alone in a cell (S-test). integer-dtype rate arrays; per-day rates read before the test.'
 MANIFEST = {
     "technique": "runtime post-conditions on the real binary-likelihood / Brier primitives (every call, including those made for simulated catalogs) vs expm1-based oracle; simulator boundary log + offline alignment of test distributions; metamorphic activity-only check",
     "level_text": "Every call of the two score primitives - direct, from the three public tests, and for each simulated catalog - is compared with the definition computed by an independent cancellation-free formula; test distributions are aligned with the recorded simulated catalogs; dependence on activity only is checked by re-scoring min(w,1) and k*w.",
@@ -99,7 +99,7 @@ def install(ctx):
 
 def ex_prim(ctx, fn, lam, w, meta=True, layout="C"):
     be, br = _mods()
-    lam = numpy.asarray(lam, dtype=float)
+    lam = numpy.asarray(lam) if layout == "int" else numpy.asarray(lam, dtype=float)      # "int": a rate table of integer dtype (whole-number rates)
     w = numpy.asarray(w, dtype=float)
     if lam.ndim == 2:
         if layout == "F":
@@ -275,8 +275,13 @@ def run(ctx):
         zero_active_class = (j % 7 == 0)
         if not zero_active_class:
             w = numpy.where(lam == 0, 0.0, w)           # zero-rate bins stay inactive in the main class
+        lay_ = ["C", "F", "T", "both-F"][j % 4]
+        if j % 11 == 5:
+            lam = r.integers(0 if zf else 1, 11, shape).astype(numpy.int64)
+            w = numpy.where(lam == 0, 0.0, w) if not zero_active_class else w
+            lay_ = "int"
         for fn in ("binary", "brier"):
-            ex_prim(ctx, fn, lam, w, layout=["C", "F", "T", "both-F"][j % 4])
+            ex_prim(ctx, fn, lam, w, layout=lay_)
             ctx.count(3)
             if (w >= 2).any() or (lam == 0).any() or (len(shape) == 2 and shape[0] != shape[1]):
                 ctx.nt(digest((fn, ctx.seed, ctx.shard, j)))
